@@ -57,7 +57,10 @@ Inductive case :=
        (o_sent : bool) (o_auth : string) (o_rt : option string) (wire : list part)
 (* other federation.Conn methods that reach a remote: every request sent to a remote cluster; secrets: the
    system root token and the unsalted secrets the caller holds *)
-| CConn (creds : list string) (tab : list (string * aca_result)) (secrets : list string) (sent : list sent_req).
+| CConn (creds : list string) (tab : list (string * aca_result)) (secrets : list string) (sent : list sent_req)
+(* keepstore remoteProxy.Get for a locator with a +R<remote>-... hint, the caller's token in the Authorization
+   header; the keep client of the remote cluster has a recording HTTP client: every request it sends *)
+| CKsGet (token remote : string) (sent : list sent_req).
 
 (* ---------- boolean specification ---------- *)
 (* reading a token as the property text does *)
@@ -189,6 +192,15 @@ Definition spec_crc_b (local : string) (creds : list string) (rt : option string
            (o_sent : bool) (o_rt : option string) (wire : list part) : bool :=
   clean_b (crc_secrets local creds aca) wire && negb (o_sent && current_token_forwarded local rt aca o_rt).
 
+(* keepstore: the caller's secret -- of an unsalted v2 token, or a legacy token as a whole -- occurs nowhere
+   in what is sent to the remote cluster's keep services *)
+Definition ks_secrets (token : string) : list string :=
+  match classify token with
+  | TV2 uuid secret => if Nat.ltb 40 (String.length secret) && negb (contains secret uuid) then [secret] else []
+  | TLegacy => [token]
+  | _ => []
+  end.
+
 Definition spec_k (hm : hmfun) (c : case) : bool :=
   match c with
   | CSalt token remote o => spec_salt_k hm token remote o
@@ -198,6 +210,7 @@ Definition spec_k (hm : hmfun) (c : case) : bool :=
   | CStack r dbt secrets sent => clean_b secrets (all_parts sent)
   | CCrc local remotes target creds tab rt aca user o_sent o_auth o_rt wire => spec_crc_b local creds rt aca o_sent o_rt wire
   | CConn creds tab secrets sent => clean_b secrets (all_parts sent)
+  | CKsGet token remote sent => clean_b (ks_secrets token) (all_parts sent)
   end.
 
 (* ---------- known finding F6b (legacy saltAuthToken) ----------
@@ -295,6 +308,11 @@ Definition model_k (hm : hmfun) (c : case) : bool :=
     end
   | CConn creds tab secrets sent =>
     forallb (fun q => conn_auth_k hm (tab_get tab) creds (fst (fst q)) (snd (fst q))) sent
+  | CKsGet token remote sent =>
+    match remote_client_k hm token remote with
+    | Some t => forallb (fun q => String.eqb (snd (fst q)) ("OAuth2 " ++ t)) sent
+    | None => match sent with [] => true | _ => false end
+    end
   end.
 
 Definition spec_b (c : case) : bool := spec_k hmac_sha1_hex c.
@@ -344,6 +362,7 @@ Definition needs (c : case) : list (string * string) :=
     match cluster_of target with Some dest => flat_map (tok_needs (tab_get tab) dest) creds | None => [] end
   | CConn creds tab secrets sent =>
     flat_map (fun q => flat_map (tok_needs (tab_get tab) (fst (fst q))) creds) sent
+  | CKsGet token remote sent => tok_needs (fun _ => AcaError) remote token
   end.
 
 (* result code per case: 0 ok; +1 model/implementation mismatch; +2 observed behaviour violates the
